@@ -72,6 +72,7 @@ def main(argv: List[str]) -> int:
             "outside_subset": cov["outside"],
             "call_sites_scanned": n2,
             "bounded_root_sweep_inputs": sweep,
+            "cross_check": cov.get("cross_check"),
             "samples": [s for s in cov["samples"]][:4] or [{"note": "O3 obligations are per pair of paths; see handlers_under_contract"}],
             "notes": run.notes,
         }
